@@ -142,6 +142,8 @@ def check_C17(tier, seed):
            + gen.cap_scenarios(gen.CAP_SHAPES, z["nrand"] // 2, z["nops"], seed) + gen.reserve_overflow(gen.CAP_SHAPES)
            # long vectors: anything that packs per-element flags into machine words changes behaviour around 64 elements
            + gen.vec_random(sh, 24 if tier == "quick" else 400, 8, seed + 11, p_invalid=0.25, max_len=150, start=(60, 135))
+           # the pointer API (wrapping moves with every count, the trait-dispatched bundles)
+           + [x for x in gen.ptr_scenarios(["Two", "NMid", "ZZ"] if tier == "quick" else sh, min(L, 2)) if x.tag == "ptr-read"]
            # invalid arguments of the mutable-slice API (swap, apply_index with lists that are no permutations, sorts of invalid ranges)
            + gen.slicemut_invalid(["One", "Two", "NMid"] if tier == "quick" else sh, min(L, 3), seed))
     suites = [run_profile_diff("C17", scs)]
